@@ -23,6 +23,7 @@ type frame struct {
 	prev   *ssa.BasicBlock
 	panicking *goPanic
 	loopCount map[*ssa.BasicBlock]int
+	deferOf   *frame // set on the frame of a deferred function: the frame whose defers are running
 }
 
 type Interp struct {
@@ -45,6 +46,7 @@ type Interp struct {
 	spec  *HarnessSpec
 	curIf *ssa.If
 	luts  map[*Term]*lutRec
+	pendingDeferOf *frame
 }
 
 func NewInterp(prog *ssa.Program, ex *Explorer) *Interp {
@@ -268,7 +270,8 @@ func (in *Interp) callFn(fn *ssa.Function, args []V, env []V, initCtx bool) V {
 		panic(pathEnd{"unwind", "recursion depth in " + name})
 	}
 	defer func() { in.depth-- }()
-	fr := &frame{fn: fn, env: map[ssa.Value]V{}, loopCount: map[*ssa.BasicBlock]int{}}
+	fr := &frame{fn: fn, env: map[ssa.Value]V{}, loopCount: map[*ssa.BasicBlock]int{}, deferOf: in.pendingDeferOf}
+	in.pendingDeferOf = nil
 	for i, p := range fn.Params {
 		fr.env[p] = args[i]
 	}
@@ -333,7 +336,9 @@ func (in *Interp) runDefers(fr *frame) {
 	for len(fr.defers) > 0 {
 		d := fr.defers[len(fr.defers)-1]
 		fr.defers = fr.defers[:len(fr.defers)-1]
+		in.pendingDeferOf = fr // the deferred function's own frame may recover fr's panic
 		d()
+		in.pendingDeferOf = nil
 	}
 }
 
